@@ -1,8 +1,183 @@
-From Coq Require Import QArith Qabs List Bool ZArith.
-Require Import SkV.C06.Model SkV.C06.Proofs.
+(* C06 property theorems.  Nothing but statements closed by `exact`, each followed by
+   Print Assumptions.  `gen_*` are regenerated from _functions.py on this run (Gen.v).
+
+   Reading guide.  A metric call is an `fcase` (metric, multioutput mode, optional horizon weights,
+   one `col` per output with its y_true / y_pred / y_bench / y_train).  `pre_values c` is the
+   rational quantity under the root, `root_deg c` the degree of the root (1 = none, 2 = square
+   root, sum of weights for a geometric mean), `post` the averaging over outputs applied after the
+   root, and `is_value c v` says that v is what the metric returns: v = post(roots) for the
+   non-negative roots of pre_values.  sqrt / exp / log are never computed: they are characterised. *)
+From Coq Require Import QArith Qabs List Bool ZArith Permutation.
+Require Import SkV.C06.Model SkV.C06.Gen SkV.C06.Bridge SkV.C06.Agg SkV.C06.Proofs.
 Import ListNotations.
 Open Scope Q_scope.
 
-Theorem C06_eps_pos : 0 < EPS.
-Proof. exact EPS_pos. Qed.
-Print Assumptions C06_eps_pos.
+(* ---- the code is the published definition (regenerated from the source, all arguments) *)
+
+Theorem C06_code_percentage_error : forall t p s, gen_percentage_error t p s = pct_err s t p.
+Proof. exact gen_percentage_error_eq. Qed.
+Print Assumptions C06_code_percentage_error.
+
+Theorem C06_code_relative_error : forall t p b, gen_relative_error t p b = rel_err t p b.
+Proof. exact gen_relative_error_eq. Qed.
+Print Assumptions C06_code_relative_error.
+
+Theorem C06_code_asymmetric_error : forall t p thr l r,
+  gen_asymmetric_error t p thr l r = pwf (PAsym thr l r) (t - p).
+Proof. exact gen_asymmetric_error_eq. Qed.
+Print Assumptions C06_code_asymmetric_error.
+
+(* each of the 18 functions: helper, point loss, aggregate, root and output handling as published *)
+Theorem C06_code_structure_is_textbook : forall n o, gen_struct n o = textbook n o.
+Proof. exact gen_struct_eq. Qed.
+Print Assumptions C06_code_structure_is_textbook.
+
+Theorem C06_code_defaults_as_documented : forall n, gen_defaults n = documented_defaults n.
+Proof. exact gen_defaults_eq. Qed.
+Print Assumptions C06_code_defaults_as_documented.
+
+(* ---- the helpers are the published formulas; the EPS clamps only act where those are undefined *)
+
+Theorem C06_percentage_error_published : forall t p,
+  (EPS <= Qabs t -> pct_err false t p == (t - p) / Qabs t) /\
+  (EPS <= Qabs t + Qabs p -> pct_err true t p == 2 * Qabs (t - p) / (Qabs t + Qabs p)).
+Proof. exact (fun t p => conj (pct_asym_unclamped t p) (pct_sym_unclamped t p)). Qed.
+Print Assumptions C06_percentage_error_published.
+
+(* relative error: the denominator y_true - y_bench keeps its sign (0 counts as positive), is
+   pushed away from 0 to +-EPS, and is untouched when |y_true - y_bench| >= EPS *)
+Theorem C06_relative_error_sign_clamp : forall t p b,
+  rel_err t p b == (t - p) / rel_den t b /\
+  (0 <= t - b -> EPS <= rel_den t b /\ rel_den t b == qmax (t - b) EPS) /\
+  (t - b < 0 -> rel_den t b <= - EPS /\ rel_den t b == qmin (t - b) (- EPS)) /\
+  (EPS <= Qabs (t - b) -> rel_den t b == t - b).
+Proof. exact (fun t p b => conj (Qeq_refl _) (rel_den_spec t b)). Qed.
+Print Assumptions C06_relative_error_sign_clamp.
+
+Theorem C06_asymmetric_switch : forall thr lf rf e,
+  (e < thr -> pwf (PAsym thr lf rf) e = pwf0 lf e) /\
+  (thr <= e -> pwf (PAsym thr lf rf) e = pwf0 rf e) /\
+  pwf (PAsym thr lf lf) e = pwf (P0 lf) e.
+Proof.
+  exact (fun thr lf rf e => conj (asym_left thr lf rf e) (conj (asym_right thr lf rf e)
+                                                                (asym_same thr lf e))).
+Qed.
+Print Assumptions C06_asymmetric_switch.
+
+(* ---- aggregates *)
+
+Theorem C06_median_is_middle_order_statistic : forall l, exists s, Permutation l s /\ sorted s /\
+  median l = (let n := length l in
+              if Nat.even n then (nth (n / 2 - 1) s 0 + nth (n / 2) s 0) / 2 else nth (n / 2) s 0).
+Proof. exact median_spec. Qed.
+Print Assumptions C06_median_is_middle_order_statistic.
+
+(* horizon-weighted medians are sklearn's LOWER weighted median *)
+Theorem C06_weighted_median_is_lower_weighted_median : forall w l,
+  length w = length l -> 0 < qsum w ->
+  exists s1 v wv s2,
+    Permutation (combine l w) (s1 ++ (v, wv) :: s2) /\ psorted (s1 ++ (v, wv) :: s2) /\
+    wpercentile w l = v /\
+    qsum (map snd s1) < qsum w * (1 # 2) /\ qsum w * (1 # 2) <= qsum (map snd s1) + wv.
+Proof. exact wpercentile_spec. Qed.
+Print Assumptions C06_weighted_median_is_lower_weighted_median.
+
+Theorem C06_horizon_weights_scale_free : forall m mo w cols c,
+  0 < c -> fam_agg (fam m) <> GMean ->
+  eql (pre_values (mkfcase m mo (Some (map (Qmult c) w)) cols))
+      (pre_values (mkfcase m mo (Some w) cols)).
+Proof. exact horizon_weights_scale_free. Qed.
+Print Assumptions C06_horizon_weights_scale_free.
+
+Theorem C06_equal_horizon_weights_are_no_weights : forall c l,
+  ~ c == 0 -> agg Mean (Some (repeat c (length l))) l == agg Mean None l.
+Proof. exact agg_equal_weights. Qed.
+Print Assumptions C06_equal_horizon_weights_are_no_weights.
+
+Theorem C06_zero_weight_step_is_ignored : forall w l x, wmean (0 :: w) (x :: l) == wmean w l.
+Proof. exact wmean_zero_weight. Qed.
+Print Assumptions C06_zero_weight_step_is_ignored.
+
+(* ---- values *)
+
+(* the model determines the returned value *)
+Theorem C06_value_determined : forall c v v',
+  (0 < root_deg c)%Z -> is_value c v -> is_value c v' -> eql v v'.
+Proof. exact value_unique. Qed.
+Print Assumptions C06_value_determined.
+
+Theorem C06_value_without_root_is_the_formula : forall c,
+  wf c -> root_deg c = 1%Z -> is_value c (post c (pre_values c)).
+Proof. exact value_unrooted. Qed.
+Print Assumptions C06_value_without_root_is_the_formula.
+
+Theorem C06_loss_nonneg : forall c v, wf c -> is_value c v -> Forall (fun x => 0 <= x) v.
+Proof. exact value_nonneg. Qed.
+Print Assumptions C06_loss_nonneg.
+
+Theorem C06_loss_zero_at_perfect_forecast : forall c v,
+  Forall perfect (f_cols c) -> fam_agg (fam (f_m c)) <> GMean ->
+  is_value c v -> Forall (fun x => x == 0) v.
+Proof. exact value_zero_at_perfect. Qed.
+Print Assumptions C06_loss_zero_at_perfect_forecast.
+
+Theorem C06_gmean_floor_at_perfect_forecast : forall b k rt mo hw cols n r,
+  Forall perfect cols -> Forall (shaped n) cols -> (forall w, hw = Some w -> length w = n) ->
+  (0 < gm_deg (gm_weights hw n))%Z -> cols <> [] ->
+  let c := mkfcase (mkmetric (FSimple b k GMean) rt) mo hw cols in
+  roots_of (root_deg c) r (pre_values c) ->
+  Forall (fun s => (if rt then s * s else s) == EPS) r.
+Proof. exact gmean_value_floor. Qed.
+Print Assumptions C06_gmean_floor_at_perfect_forecast.
+
+Theorem C06_symmetric_percentage_swap_invariant : forall k a rt mo hw cols v, a <> GMean ->
+  let m := mkmetric (FSimple (BPct true) k a) rt in
+  is_value (mkfcase m mo hw (map swap_col cols)) v <-> is_value (mkfcase m mo hw cols) v.
+Proof. exact pct_symmetric_value. Qed.
+Print Assumptions C06_symmetric_percentage_swap_invariant.
+
+(* sMAPE, sMdAPE and the rooted squared versions lie in [0,2]; the unrooted squared ones in [0,4] *)
+Theorem C06_symmetric_percentage_range : forall k a rt mo hw cols v,
+  a <> GMean -> hw_ok hw -> mo_ok mo ->
+  let m := mkmetric (FSimple (BPct true) (P0 k) a) rt in
+  is_value (mkfcase m mo hw cols) v ->
+  Forall (fun x => 0 <= x <= (if rt then 2 else match k with PAbs => 2 | PSq => 4 end)) v.
+Proof. exact pct_symmetric_value_range. Qed.
+Print Assumptions C06_symmetric_percentage_range.
+
+(* scaled errors: invariant under rescaling by c > 0 when the in-sample naive error is not clamped
+   (Refuted.v: false without that hypothesis) *)
+Theorem C06_scaled_error_scale_invariant : forall k a sp rt mo hw cols c v, 0 < c ->
+  let m := mkmetric (FScaled k a sp) rt in
+  Forall (fun d => EPS <= d) (scaled_den k a sp mo cols) ->
+  Forall (fun d => EPS <= d) (scaled_den k a sp mo (map (scale_col c) cols)) ->
+  (is_value (mkfcase m mo hw (map (scale_col c) cols)) v <-> is_value (mkfcase m mo hw cols) v).
+Proof. exact scaled_value_invariant. Qed.
+Print Assumptions C06_scaled_error_scale_invariant.
+
+(* multi-output: raw values are the univariate metric of each column; averages are taken after *)
+Theorem C06_multioutput_raw_is_columnwise : forall m hw cols,
+  pre_values (mkfcase m Raw hw cols) =
+  flat_map (fun cl => pre_values (mkfcase m Raw hw [cl])) cols.
+Proof. exact raw_is_columnwise. Qed.
+Print Assumptions C06_multioutput_raw_is_columnwise.
+
+Theorem C06_multioutput_average_of_columns : forall b k a rt mo hw cols,
+  let m := mkmetric (FSimple b k a) rt in
+  pre_values (mkfcase m mo hw cols) = pre_values (mkfcase m Raw hw cols) /\
+  forall roots, post (mkfcase m mo hw cols) roots = mo_avg mo roots.
+Proof. exact simple_ignores_mo. Qed.
+Print Assumptions C06_multioutput_average_of_columns.
+
+(* non-vacuity: RMSSE on a concrete two-output instance satisfies every hypothesis above and has
+   a value, which the scale-invariance theorem transports to the data rescaled by 3 *)
+Example C06_nonvacuous :
+  let cols := [mkcol [3; 1] [1; 1] [] [0; 2; 4]; mkcol [0; 2] [2; 2] [] [5; 2; 5]] in
+  let m := mkmetric (FScaled PSq Mean 1) true in
+  wf (mkfcase m Raw (Some [1; 3]) cols) /\
+  Forall (fun d => EPS <= d) (scaled_den PSq Mean 1 Raw cols) /\
+  Forall (fun d => EPS <= d) (scaled_den PSq Mean 1 Raw (map (scale_col 3) cols)) /\
+  is_value (mkfcase m Raw (Some [1; 3]) cols) [1 # 2; 1 # 3] /\
+  is_value (mkfcase m Raw (Some [1; 3]) (map (scale_col 3) cols)) [1 # 2; 1 # 3].
+Proof. exact nonvacuous_example. Qed.
+Print Assumptions C06_nonvacuous.
